@@ -176,6 +176,8 @@ def run(rep):
             rep.holds(name + ' (%d queries)' % r['queries'], r['solver_s'])
     rep.cover('C17 4x unrolled body entered (n >= 4*lanes)', nmax >= 32)
     validate(rep, mir)
+    from ..driver import parts
+    parts(rep, [lambda: cpumath_meaning(rep, mir)])
 
 def conc_run(mir, k, lanes, n, conc):
     L = Layouts(REPO); C = ConcAlg(); vm = VM(mir, C); install_simd(vm, lanes)
@@ -217,3 +219,68 @@ def validate(rep, mir):
         rep.validated += 1
         if not ok: rep.validation_mismatch.append({'kernel': k, 'lanes': lanes, 'n': n})
     if rep.validation_mismatch: rep.errors.append('translator validation mismatch on kernels')
+
+# ------------------------------------------------------------------------------------------------
+def cpumath_meaning(rep, mir):
+    """C17.B: every `impl Math for CpuMath` method (dispatch layer + non-SIMD helpers) computes the algebraic meaning that the other checks
+    assume for the Math environment (mathenv.MathEnv): the real method is executed from the MIR on vectors of length n with symbolic entries and
+    compared with the environment model applied to the same arguments."""
+    from ..mathenv import MathEnv
+    from .. import cpuenv
+    L = Layouts(REPO)
+    methods = {   # name -> (argument kinds after (self, ...)),  v = input vector, o = output vector (arbitrary old content), s = scalar
+        'axpy': 'vos', 'axpy_out': 'vvso', 'array_mult': 'vvo', 'array_mult_inplace': 'ov', 'array_recip': 'vo', 'fill_array': 'os', 'copy_into': 'vo',
+        'array_vector_dot': 'vv', 'scalar_prods2': 'vvvv', 'scalar_prods3': 'vvvvv', 'sq_norm_sum': 'vv', 'array_sum_ln': 'v', 'array_all_finite': 'v', 'array_all_finite_and_nonzero': 'v',
+        'std_norm_flow': 'voos', 'std_norm_grad_flow': 'vvvos', 'std_norm_grad_flow_inplace': 'vvos', 'array_update_variance': 'oovs'}
+    bad = []; nq = 0; t0 = time.time()
+    for name, kinds in methods.items():
+        for n in (0, 1, 3, 9):
+            for pol in ('R',):
+                A = RealAlg()
+                # real code
+                vm = VM(mir, A, inst={}); cpuenv.install(vm, 2)
+                try: fn = mir.method('CpuMath', 'Math', name)
+                except KeyError as e: bad.append((name, 'method not found in the MIR', str(e))); break
+                def mkargs(m):
+                    args = []; cells = []
+                    for j, kd in enumerate(kinds):
+                        if kd == 's': args.append(A.fresh('s%d' % j)); cells.append(None)
+                        else:
+                            c = m.alloc(Seq([A.fresh('a%d_%d' % (j, i)) for i in range(n)])); cells.append(c); args.append(Ref(c))
+                    return args, cells
+                m = Machine(); selfc = m.alloc(Struct((Opaque('logp'), Opaque('arch'), Seq(())), 'CpuMath')); args, cells = mkargs(m)
+                try:
+                    outs = vm.run(fn, [Ref(selfc)] + args, m)
+                except (VMError, Unmodelled, KeyError) as e:
+                    rep.unknown('C17.B %s n=%d' % (name, n), '%s: %s' % (type(e).__name__, str(e)[:200])); break
+                rep.functions |= set(vm.fns_used); rep.stmts += vm.nstmt
+                # environment meaning on identical symbols
+                vm2 = VM(mir, A, inst={}); env = MathEnv(vm2, n, 'uf', L)
+                m2 = Machine(); args2, cells2 = mkargs(m2)
+                h = next(hh for (rx, hh) in vm2.models if rx.search('<M as Math>::%s' % name))
+                outs2 = list(h(vm2, m2, '<M as Math>::%s' % name, [Ref(m2.alloc(Opaque('math')))] + args2))
+                (mb, kb, vb) = outs2[0]
+                def cmpv(x, y):
+                    if isinstance(x, Fl): return [] if z3.eq(x.v, y.v) else [x.v != y.v]
+                    if isinstance(x, Struct): return [d for a_, b_ in zip(x.f, y.f) for d in cmpv(a_, b_)]
+                    if isinstance(x, bool) or z3.is_expr(x):
+                        xa_ = z3.BoolVal(x) if isinstance(x, bool) else x; yb_ = z3.BoolVal(y) if isinstance(y, bool) else y
+                        return [] if z3.eq(xa_, yb_) else [xa_ != yb_]
+                    return []
+                for (ma, ka, va) in outs:          # the real method may fork (short-circuiting iterators): every outcome must agree under its path condition
+                    if ka != 'ret': bad.append((name, n, 'real method panics', str(va)[:100])); continue
+                    diffs = []
+                    for ca, cb in zip(cells, cells2):
+                        if ca is None: continue
+                        xa, xb = ma.mem[ca].items, mb.mem[cb].items
+                        if len(xa) != len(xb): diffs.append(z3.BoolVal(True)); continue
+                        diffs += [x.v != y.v for x, y in zip(xa, xb) if not z3.eq(x.v, y.v)]
+                    diffs += cmpv(va, vb)
+                    nq += 1
+                    if diffs:
+                        sol = z3.Solver(); sol.set('timeout', 60000); sol.add(*ma.pc); sol.add(z3.Or(*diffs)); r = sol.check()
+                        if r == z3.sat: bad.append((name, n, 'CpuMath::%s differs from its algebraic meaning' % name, {d.name(): str(sol.model()[d]) for d in sol.model().decls()[:8]}))
+                        elif r == z3.unknown: rep.unknown('C17.B %s n=%d' % (name, n), 'solver unknown')
+    rep.paths += nq
+    if bad: rep.violated('C17.B CpuMath methods compute the assumed algebraic meaning', 'cpumath.meaning', 'CpuMath method differs from the formula the other checks assume: %s' % (bad[0],), model={'problems': [str(b)[:300] for b in bad[:6]]})
+    else: rep.holds('C17.B all %d CpuMath Math methods (dispatch layer, faer zip helpers, variance update) equal the algebraic meaning assumed by the Math environment, n in {0,1,3,9}, lanes 2 (%d comparisons)' % (len(methods), nq), time.time() - t0)
